@@ -505,6 +505,24 @@ def _fields(repo, rep):
               "text itself into the format (no rewriting of the value)",
               construct="attr-static-verbatim", where=L.where(va),
               detail=str(sinks))
+    # a static attribute is re-written (quoted, interpolated) only if it
+    # holds a ${...}: every 'X in text' test of the node builder asks for
+    # the same marker, the one the interpolation decision uses
+    cn = repo.func(PROG + "_create_attributes_nodes")
+    marks = {}
+    for n_ in ast.walk(cn.node):
+        if isinstance(n_, ast.Compare) and len(n_.ops) == 1 and isinstance(
+                n_.ops[0], (ast.In, ast.NotIn)) and isinstance(
+                    n_.left, ast.Constant) and isinstance(
+                        n_.left.value, str) and \
+                src(n_.comparators[0]) == "text":
+            marks.setdefault(n_.left.value, []).append(n_.lineno)
+    rep.check(len(marks) == 1 and "${" in marks and
+              len(marks["${"]) >= 2, "R03.3", cn.qualname, "the tests that "
+              "decide whether a static attribute value is computed (and so "
+              "quoted / interpolated) all look for '${' -- a value with a "
+              "lone '$' stays as written", construct="attr-marker-agrees",
+              where=L.where(cn), detail=str(marks))
     # match_tag: value alternatives are folded into 'value'; suffix is what
     # follows the last attribute
     mt = repo.func(PARSER + ".match_tag")
